@@ -136,6 +136,10 @@ pub enum Ty {
     Compact(Box<Ty>),
     /// BitVec<store, order>; `true` = Msb0
     BitVec(Prim, bool),
+    /// BitVec<S, O> with arbitrary type expressions (generic parameters) as store and order
+    BitVecG(Box<Ty>, Box<Ty>),
+    /// the bit-order marker type `bitvec::order::{Lsb0, Msb0}` as a type expression; `true` = Msb0
+    Order(bool),
     Phantom(Box<Ty>),
 }
 
@@ -331,6 +335,8 @@ impl Program {
                 if *msb { "Msb0" } else { "Lsb0" }
             ),
             Ty::Phantom(t) => format!("PhantomData<{}>", s(t)),
+            Ty::BitVecG(st, o) => format!("BitVec<{}, {}>", s(st), s(o)),
+            Ty::Order(msb) => if *msb { "Msb0" } else { "Lsb0" }.to_string(),
         }
     }
 
@@ -477,7 +483,7 @@ pub struct Elaborated {
     /// ids of the program's roots, in order
     pub root_ids: Vec<u32>,
     /// for each registry id: the closed source type it was first registered as
-    /// (order markers appear as `BitVec(Bool, msb)`)
+    /// (order markers appear as `Ty::Order(msb)`)
     pub origin: Vec<Ty>,
 }
 
@@ -500,9 +506,14 @@ fn subst(ty: &Ty, args: &[Ty], prog: &Program) -> Ty {
                 .expect("argument of a Config-bounded parameter implements Config"),
             other => panic!("Assoc of non-named argument {other:?}"),
         },
-        Ty::Prim(_) | Ty::CowStr | Ty::CowBytes | Ty::NonZero(_) | Ty::Duration | Ty::BitVec(..) => {
+        Ty::Prim(_) | Ty::CowStr | Ty::CowBytes | Ty::NonZero(_) | Ty::Duration | Ty::BitVec(..) | Ty::Order(_) => {
             ty.clone()
         }
+        // a closed BitVec<store, order> is the same Rust type however it was written
+        Ty::BitVecG(a, b) => match (*s(a), *s(b)) {
+            (Ty::Prim(p), Ty::Order(m)) => Ty::BitVec(p, m),
+            (x, y) => Ty::BitVecG(Box::new(x), Box::new(y)),
+        },
         Ty::Named(d, a) => Ty::Named(*d, a.iter().map(|t| subst(t, args, prog)).collect()),
         Ty::Vec(t) => Ty::Vec(s(t)),
         Ty::VecDeque(t) => Ty::VecDeque(s(t)),
@@ -535,7 +546,6 @@ pub enum Key {
     Slice(Ty),
     StrSlice,
     Phantom,
-    Order(bool),
 }
 
 pub fn key_of(ty: &Ty, opts: ElabOpts) -> Key {
@@ -888,6 +898,26 @@ impl<'a> Elab<'a> {
                     type_param: id.into(),
                 })
             }
+            Ty::BitVecG(store, order) => {
+                let s = self.register(store);
+                let o = self.register(order);
+                Self::plain(TypeDefBitSequence {
+                    bit_store_type: s.into(),
+                    bit_order_type: o.into(),
+                })
+            }
+            Ty::Order(msb) => SiType {
+                path: SiPath {
+                    segments: vec![
+                        "bitvec".into(),
+                        "order".into(),
+                        if *msb { "Msb0" } else { "Lsb0" }.into(),
+                    ],
+                },
+                type_params: vec![],
+                type_def: TypeDefComposite { fields: vec![] }.into(),
+                docs: vec![],
+            },
             Ty::BitVec(store, msb) => {
                 let s = self.register(&Ty::Prim(*store));
                 let o = self.register_order(*msb);
@@ -906,27 +936,7 @@ impl<'a> Elab<'a> {
     }
 
     fn register_order(&mut self, msb: bool) -> u32 {
-        // order markers are interned under a reserved key
-        let key = Key::Order(msb);
-        if let Some(id) = self.ids.get(&key) {
-            return *id;
-        }
-        let id = self.types.len() as u32;
-        self.ids.insert(key, id);
-        self.origin.push(Ty::BitVec(Prim::Bool, msb));
-        self.types.push(Some(SiType {
-            path: SiPath {
-                segments: vec![
-                    "bitvec".into(),
-                    "order".into(),
-                    if msb { "Msb0" } else { "Lsb0" }.into(),
-                ],
-            },
-            type_params: vec![],
-            type_def: TypeDefComposite { fields: vec![] }.into(),
-            docs: vec![],
-        }));
-        id
+        self.register(&Ty::Order(msb))
     }
 }
 
